@@ -195,7 +195,12 @@ impl Scenario for C08 {
       5 => Src::TimerAt { off: *rng.pick(&[-5, 0, 1, 3, 10, 10, 1000, 2001]) },
       6 => Src::Future { gate: gate(rng) },
       7 => Src::FutureResult { gate: gate(rng), err: rng.chance(1, 2) },
-      8 => Src::Stream { gates: (0..rng.below(6)).map(|_| gate(rng)).collect() },
+      // one stream in eight is long and mostly ready at once (a burst)
+      8 => Src::Stream { gates: if rng.chance(1, 8) { (0..rng.range(20, 80)).map(|_| if rng.chance(1, 25) { gate(rng) } else { Gate::Ready }).collect() } else { (0..rng.below(6)).map(|_| gate(rng)).collect() } },
+      _ if rng.chance(1, 8) => {
+        let n = rng.range(20, 80);
+        Src::StreamResult { gates: (0..n).map(|_| if rng.chance(1, 25) { gate(rng) } else { Gate::Ready }).collect(), err_at: if rng.chance(1, 2) { Some(rng.range(n / 2, n - 1)) } else { None } }
+      }
       _ => {
         let n = rng.below(6);
         Src::StreamResult { gates: (0..n).map(|_| gate(rng)).collect(), err_at: if n > 0 && rng.chance(1, 2) { Some(rng.below(n)) } else { None } }
@@ -218,7 +223,8 @@ impl Scenario for C08 {
     let case: Case = serde_json::from_value(case.clone()).map_err(|e| e.to_string())?;
     match &case.src {
       Src::Interval { take, .. } | Src::IntervalAt { take, .. } if *take == 0 || *take > 20 => return Err("bad interval".into()),
-      Src::Stream { gates } | Src::StreamResult { gates, .. } if gates.len() > 12 => return Err("bad stream".into()),
+      Src::Stream { gates } | Src::StreamResult { gates, .. } if gates.len() > 100 => return Err("bad stream".into()),
+      Src::StreamResult { gates, err_at: Some(e) } if *e >= gates.len() => return Err("error position beyond the stream".into()),
       _ => {}
     }
     let w = World::new();
